@@ -55,9 +55,18 @@ func seekAndMux(
 		}
 		defer f.Close()
 
-		firstInit, _, err := segmentFMP4ReadHeader(f)
+		firstInit, firstDuration, err := segmentFMP4ReadHeader(f)
 		if err != nil {
 			return err
+		}
+
+		// the first segment is the last one that begins before the requested start.
+		// If it also ends before it (the start falls in a gap between two recordings),
+		// there is nothing to take from it: begin from the next segment,
+		// as when the start precedes every recording.
+		if len(segments) > 1 && firstDuration != 0 &&
+			!segments[0].Start.Add(firstDuration).After(start) {
+			return seekAndMux(recordFormat, segments[1:], start, duration, m)
 		}
 
 		m.writeInit(&fmp4.Init{
